@@ -47,9 +47,9 @@ theorem C10_live_holder_excludes (f : FSys) (fop : FOp) (op : Op) (hc : fop.call
   cases hb : f.busy op
   · cases fop with
     | stallEnd => cases hc
-    | failWrite op' k =>
+    | failWrite op' k torn =>
       cases hc
-      rcases failT_locked_out f.t op k hheld hl with h | h <;> simp [stepF, FOp.call, hb, hnb, h]
+      rcases failT_locked_out f.t op k torn hheld hl with h | h <;> simp [stepF, FOp.call, hb, hnb, h]
     | stallBegin op' k =>
       cases hc
       rcases stallBeginF_locked_out f op k hheld hl with h | h <;> simp [stepF, FOp.call, hb, hnb, h]
@@ -144,7 +144,65 @@ theorem C10_failed_handle_jobstatus_still_refused (f : FSys) (h : Hid) (x : Hand
     refine ⟨?_, rfl⟩
     rcases (hcid id).1 with ⟨_, b⟩ | ⟨_, b⟩ <;> rw [b] <;> simp
 
-/-! ## non-vacuity (and the defect of the unchanged code) -/
+/-! ## failed writes never put a handle ahead of a version file (findings/f9f, repaired) -/
+
+/-- After EVERY tamper-free history of API calls, kills between file writes and FAILED WRITES at arbitrary file-write
+    boundaries (the handle of the failed call lives on): no handle's copy is AHEAD of a version file, and no version file is
+    behind the version inside its data file.  A failed write of the VERSION file rolls the in-memory bump back (the `except`
+    handler of `_serialize` / `_serialize_jobs`, regenerated as `cfgVersionAfterFailedWrite` / `jsVersionAfterFailedWrite`): the
+    handle holds the on-disk version again.  A failed write of the DATA file leaves version file and handle at the same,
+    bumped number - with newer data in memory than in the data file; every other process holds a smaller number and is
+    refused until that handle writes again.  (Before the repair the first part was false: `Props` history of findings/f9f.) -/
+theorem C10_failed_write_not_ahead (host : Host) (spec : List (List JobId × Bool)) (brk : Bool) (ops : List FOp)
+    (hp : ∀ op ∈ ops, op.plain = true ∧ op.isTamper = false) :
+    (∀ (h : Hid) (x : Handle), (execF (FSys.ofT (TSys.ofSys (create host spec brk))) ops).t.s.handles h = some x →
+      x.cfg.version ≤ (execF (FSys.ofT (TSys.ofSys (create host spec brk))) ops).t.s.disk.cfgVer) ∧
+    (∀ (h : Hid) (x : Handle) (j : JsView), (execF (FSys.ofT (TSys.ofSys (create host spec brk))) ops).t.s.handles h = some x →
+      x.js = some j → j.version ≤ (execF (FSys.ofT (TSys.ofSys (create host spec brk))) ops).t.s.disk.jsVer) ∧
+    (execF (FSys.ofT (TSys.ofSys (create host spec brk))) ops).t.s.disk.cfg.version ≤
+      (execF (FSys.ofT (TSys.ofSys (create host spec brk))) ops).t.s.disk.cfgVer ∧
+    (execF (FSys.ofT (TSys.ofSys (create host spec brk))) ops).t.s.disk.js.version ≤
+      (execF (FSys.ofT (TSys.ofSys (create host spec brk))) ops).t.s.disk.jsVer := by
+  have hP := execF_plainAhead ops _ (PlainAhead.create host spec brk) hp
+  exact ⟨hP.ahead.cfgHandle, hP.ahead.jsHandle, hP.ahead.cfgData, hP.ahead.jsData⟩
+
+/-- Consequently, in every state reached by API calls, kills and failed writes, a handle - in particular one whose own
+    earlier write failed - whose copy is OLDER THAN THE CONTENTS on disk cannot write it: its version differs from the version
+    file, `update_job_status` / `mark_canceled` raise the version mismatch, promotion and demotion do not succeed, and the four
+    files are unchanged; likewise `update_job_status` / `complete_hpc_job_id` for an older job-status copy. -/
+theorem C10_older_copy_rejected_after_failed_writes (host : Host) (spec : List (List JobId × Bool)) (brk : Bool) (ops : List FOp)
+    (hp : ∀ op ∈ ops, op.plain = true ∧ op.isTamper = false) (f : FSys)
+    (hf : f = execF (FSys.ofT (TSys.ofSys (create host spec brk))) ops)
+    (h : Hid) (x : Handle) (hx : f.t.s.handles h = some x) (hfree : f.t.s.disk.marker = false) :
+    (x.cfg.version < f.t.s.disk.cfg.version →
+      x.cfg.version ≠ f.t.s.disk.cfgVer ∧
+      (∀ a : UpdateArgs, (stepF f (.base (.api (.update h a)))).2 = .res (.err .versionMismatch) ∧
+          (stepF f (.base (.api (.update h a)))).1.t.s.disk = { f.t.s.disk with marker := true }) ∧
+      ((stepF f (.base (.api (.markCanceled h)))).2 = .res (.err .versionMismatch) ∧
+          (stepF f (.base (.api (.markCanceled h)))).1.t.s.disk = { f.t.s.disk with marker := true }) ∧
+      ((stepF f (.base (.api (.promote h)))).2 ≠ .res (.bool true) ∧
+          (stepF f (.base (.api (.promote h)))).1.t.s.disk.files = f.t.s.disk.files) ∧
+      ((stepF f (.base (.api (.demote h)))).2 ≠ .res .ok ∧
+          (stepF f (.base (.api (.demote h)))).1.t.s.disk = { f.t.s.disk with marker := true })) ∧
+    (∀ j : JsView, x.js = some j → j.version < f.t.s.disk.js.version →
+      j.version ≠ f.t.s.disk.jsVer ∧
+      (∀ a : UpdateArgs, (stepF f (.base (.api (.update h a)))).2 = .res (.err .versionMismatch) ∧
+          (stepF f (.base (.api (.update h a)))).1.t.s.disk = { f.t.s.disk with marker := true }) ∧
+      (∀ id : Nat, (stepF f (.base (.api (.completeHpcId h id)))).2 ≠ .res .ok ∧
+          (stepF f (.base (.api (.completeHpcId h id)))).1.t.s.disk = { f.t.s.disk with marker := true })) := by
+  have hP := execF_plainAhead ops _ (PlainAhead.create host spec brk) hp
+  rw [← hf] at hP
+  have hc : f.t.cfgVerTorn = false := by rw [hP.plain]; rfl
+  have hj : f.t.jsVerTorn = false := by rw [hP.plain]; rfl
+  constructor
+  · intro hold
+    have hstale := hP.ahead.older_stale h x hx hold
+    exact ⟨hstale, C10_failed_handle_still_refused f h x hx hP.idle hc hj hfree hstale⟩
+  · intro j hjs hold
+    have hstale := hP.ahead.older_stale_js h x j hx hjs hold
+    exact ⟨hstale, C10_failed_handle_jobstatus_still_refused f h x j hx hjs hP.idle hc hj hfree hstale⟩
+
+/-! ## non-vacuity -/
 
 private def twoJobs : List (List JobId × Bool) := [([], false), ([], false)]
 private def upd0 (sub comp : List JobId) (ids : List Nat) : UpdateArgs :=
@@ -174,15 +232,14 @@ example :
      .res (.bool true), .res (.bool false)] := by
   decide
 
-/-- DEFECT OF THE UNCHANGED CODE (findings/f9f; the suite reports it as a known finding): the write of `config_version.txt`
-    in the creator's demotion raises OSError.  `_serialize` had already bumped `config.version` in memory, so the handle is
-    one version AHEAD of the file and refused (step 3) - until another process has written the config once (step 5): the
-    file then holds the number the failed handle has in memory, and its out-of-date copy is ACCEPTED (step 6), replacing
-    the newer contents. -/
-theorem C10_failed_write_version_reused :
-    (runF start [.failWrite (.demote 0) 0, .base (.api .breakMarker), .base (.api (.markCanceled 0)), .base (.api .breakMarker),
-      .base (.api (.load 1 1 false true)), .base (.api (.markCanceled 1)), .base (.api (.markCanceled 0))]).2 =
-    [.res (.err .ioError), .res .ok, .res (.err .versionMismatch), .res .ok, .res (.bool false), .res .ok, .res .ok] := by
+/-- REGRESSION for findings/f9f (repaired): the write of `config_version.txt` in the creator's demotion raises OSError; the
+    bump of `config.version` is rolled back, so the handle holds the on-disk version again.  Another process writes the config
+    once (step 5); the failed handle's out-of-date copy is REFUSED (step 6) - before the repair it held the number the other
+    process wrote and was accepted. -/
+example :
+    (runF start [.failWrite (.demote 0) 0, .base (.api .breakMarker), .base (.api (.load 1 1 false true)),
+      .base (.api (.markCanceled 1)), .base (.api (.markCanceled 0))]).2 =
+    [.res (.err .ioError), .res .ok, .res (.bool false), .res .ok, .res (.err .versionMismatch)] := by
   decide
 
 end Jade.C10
